@@ -1289,7 +1289,9 @@ class HealSparseMap(object):
                 if not key.isupper():
                     raise ValueError("metadata key %s must be all upper case" % (key))
 
-            self._metadata = metadata
+            # Each map keeps its own copy, so that maps derived from one
+            # another do not share a mutable metadata dictionary.
+            self._metadata = dict(metadata)
 
     def generate_healpix_map(self, nside=None, reduction='mean', key=None, nest=True):
         """
